@@ -190,9 +190,14 @@ class SpecMultiMap:
     """Insertion-ordered multimap: keys in first-insertion order, every key has >= 1 value.
     `taint` collects the keys of known findings whose precondition a history breached."""
 
-    def __init__(self, arg=None, taint=None):
+    def __init__(self, arg=None, taint=None, quirk=False):
         self.m = []  # list of [key, [values]]
         self.taint = taint if taint is not None else []
+        # quirk = the behaviour known finding F08d describes, and nothing else: `setlist(k, [])` /
+        # `setlistdefault(k)` leave the key in place with zero values; such a key is `in` the dict,
+        # counts for len / keys / lists, has no first value (KeyError on d[k], pop, popitem,
+        # setdefault; IndexError from values() / items() / to_dict()) and takes later values
+        self.quirk = quirk
         if arg is None:
             return
         tag = arg[0]
@@ -239,7 +244,7 @@ class SpecMultiMap:
         return [e[0] for e in self.m]
 
     def values(self):
-        return [e[1][0] for e in self.m]
+        return [e[1][0] for e in self.m]  # IndexError on a key without values (quirk states only)
 
     def items(self, multi=False):
         if multi:
@@ -257,13 +262,13 @@ class SpecMultiMap:
 
     def __getitem__(self, k):
         e = self._entry(k)
-        if e is None:
+        if e is None or not e[1]:
             raise SpecErr("BadRequestKeyError")
         return e[1][0]
 
     def get(self, k, default=None, type=None):
         e = self._entry(k)
-        if e is None:
+        if e is None or not e[1]:
             return default
         if type is None:
             return e[1][0]
@@ -298,6 +303,8 @@ class SpecMultiMap:
         elif n == "setlist":
             if op[2]:
                 self._put(op[1], op[2])
+            elif self.quirk:
+                self._put(op[1], [])
             else:
                 # a key without values is not a state of a multimap: the key disappears
                 self.taint.append("F08d")
@@ -308,7 +315,7 @@ class SpecMultiMap:
             return self[op[1]]
         elif n == "setlistdefault":
             if op[1] not in self:
-                if op[2]:
+                if op[2] or self.quirk:
                     self._put(op[1], op[2])
                 else:
                     self.taint.append("F08d")
@@ -319,13 +326,17 @@ class SpecMultiMap:
         elif n == "or":
             if op[1][0] not in ("D", "M"):
                 raise SpecErr("TypeError")
-            c = SpecMultiMap()
+            c = SpecMultiMap(quirk=self.quirk)
             c.m = [[k, list(v)] for k, v in self.m]
             for k, v in spec_multi_items(op[1]):
                 c.add(k, v)
             return c
         elif n == "pop":
-            if op[1] not in self:
+            e = self._entry(op[1])
+            if e is not None and not e[1]:  # quirk state: the entry goes, there is no value to return
+                self._remove(op[1])
+                e = None
+            if e is None:
                 if op[2] is None:
                     raise SpecErr("BadRequestKeyError")
                 return op[2]
@@ -336,6 +347,8 @@ class SpecMultiMap:
             if not self.m:
                 raise SpecErr("BadRequestKeyError")
             k, vs = self.m.pop()
+            if not vs:  # quirk state
+                raise SpecErr("BadRequestKeyError")
             return (k, vs[0])
         elif n == "poplist":
             vs = self.getlist(op[1])
@@ -567,31 +580,45 @@ def token_ok(s):
 class SpecCISet:
     """Case-insensitive ordered set: members in insertion order, no two equal ignoring case."""
 
-    def __init__(self, members=(), taint=None):
+    def __init__(self, members=(), taint=None, quirk=False):
         self.s = []
         self.taint = taint if taint is not None else []
+        # quirk = the behaviour known findings F08b / F08c describe, and nothing else: the item list
+        # and the case-folded lookup set are kept side by side; the constructor keeps every spelling
+        # in the list (F08c) and item assignment does not look for the new value elsewhere in the
+        # list (F08b); membership / len / bool follow the lookup set, iteration / indexing /
+        # to_header the list, removal takes the first list item that matches
+        self.quirk = quirk
+        self.keys = set()
         for h in members:
-            if self._has(h):
+            if quirk:
+                self.s.append(h)
+                self.keys.add(h.lower())
+            elif self._has(h):
                 self.taint.append("F08c")
             else:
                 self.s.append(h)
 
     def _has(self, h):
+        if self.quirk:
+            return h.lower() in self.keys
         return any(x.lower() == h.lower() for x in self.s)
 
     def __len__(self):
-        return len(self.s)
+        return len(self.keys) if self.quirk else len(self.s)
 
     def __iter__(self):
         return iter(list(self.s))
 
     def __bool__(self):
-        return bool(self.s)
+        return bool(self.keys) if self.quirk else bool(self.s)
 
     def __contains__(self, h):
         return self._has(h)
 
     def as_set(self, preserve_casing=False):
+        if self.quirk and not preserve_casing:
+            return set(self.keys)
         return set(self.s) if preserve_casing else {x.lower() for x in self.s}
 
     def to_header(self):
@@ -622,7 +649,54 @@ class SpecCISet:
         except IndexError:
             raise SpecErr("IndexError") from None
 
+    def _drop_first(self, key):
+        for i, x in enumerate(self.s):
+            if x.lower() == key:
+                del self.s[i]
+                return
+
+    def apply_quirk(self, op):
+        n = op[0]
+        if n in ("add", "update"):
+            for h in [op[1]] if n == "add" else op[1]:
+                if h.lower() not in self.keys:
+                    self.s.append(h)
+                    self.keys.add(h.lower())
+        elif n in ("remove", "discard"):
+            key = op[1].lower()
+            if key not in self.keys:
+                if n == "remove":
+                    raise SpecErr("KeyError")
+                return None
+            self.keys.discard(key)
+            self._drop_first(key)
+        elif n == "clear":
+            self.s, self.keys = [], set()
+        elif n == "delitem":
+            try:
+                rv = self.s.pop(op[1])
+            except IndexError:
+                raise SpecErr("IndexError") from None
+            if rv.lower() not in self.keys:
+                raise SpecErr("KeyError")
+            self.keys.discard(rv.lower())
+        elif n == "setitem":
+            try:
+                old = self.s[op[1]]
+            except IndexError:
+                raise SpecErr("IndexError") from None
+            if old.lower() not in self.keys:
+                raise SpecErr("KeyError")
+            self.keys.discard(old.lower())
+            self.s[op[1]] = op[2]
+            self.keys.add(op[2].lower())
+        else:
+            raise AssertionError(op)
+        return None
+
     def apply(self, op):
+        if self.quirk:
+            return self.apply_quirk(op)
         n = op[0]
         if n == "add":
             if not self._has(op[1]):
@@ -1069,6 +1143,10 @@ class OpsStream(Stream):
     def strip(self, out):
         return out
 
+    def spec_quirk(self, case):
+        """the outcome a known finding of this container describes (None: no such finding here)"""
+        return None
+
     def oracle(self, case, real_out):
         taint = []
         want = self.spec(case, taint)
@@ -1076,7 +1154,18 @@ class OpsStream(Stream):
         if "INCONSISTENT" in real_out:
             return "public reads disagree with each other: " + real_out[real_out.index("INCONSISTENT") :][:120]
         if got != want:
-            pre = (sorted(set(taint))[0] + ": ") if taint else ""
+            # A known-finding key is attached only when (a) the history contains the call the finding
+            # names (taint) and (b) the whole observed outcome - every return value, exception and
+            # read after every step - is exactly the outcome that finding describes (spec_quirk);
+            # any other deviation from the documented model on the same history stays unclassified.
+            pre = ""
+            if taint:
+                try:
+                    quirk = self.spec_quirk(case)
+                except Exception:  # noqa: BLE001 - a reference-model problem must not hide a violation
+                    quirk = None
+                if quirk is not None and got == quirk:
+                    pre = sorted(set(taint))[0] + ": "
             return pre + "reads disagree with the documented model; " + first_diff(got, want)
         return None
 
@@ -1189,6 +1278,10 @@ class MultiDictStream(OpsStream):
 
     def spec(self, case, taint):
         d = SpecMultiMap(case["init"], taint)
+        return run_history(d, case["ops"], lambda o, op: o.apply(op), md_ret, lambda x: md_dump(x, self.probes), case.get("all", 0))
+
+    def spec_quirk(self, case):
+        d = SpecMultiMap(case["init"], None, quirk=True)
         return run_history(d, case["ops"], lambda o, op: o.apply(op), md_ret, lambda x: md_dump(x, self.probes), case.get("all", 0))
 
     def cases(self, rng, tier):
@@ -1390,6 +1483,10 @@ class HeaderSetStream(OpsStream):
         s = SpecCISet(case["init"], taint)
         return run_history(s, case["ops"], lambda o, op: o.apply(op), lambda r: "~", lambda x: hs_dump(x, self.probes), case.get("all", 0))
 
+    def spec_quirk(self, case):
+        s = SpecCISet(case["init"], None, quirk=True)
+        return run_history(s, case["ops"], lambda o, op: o.apply(op), lambda r: "~", lambda x: hs_dump(x, self.probes), case.get("all", 0))
+
 
 CMD_DOPS = [
     ["setitem", "a", "1"],
@@ -1501,9 +1598,16 @@ class CombinedStream(OpsStream):
         return "\t".join(parts)
 
     def spec(self, case, taint):
+        return self._spec(case, taint, False)
+
+    def spec_quirk(self, case):
+        # F08d inside a wrapped dict, seen through the view (the view adds nothing of its own)
+        return self._spec(case, None, True)
+
+    def _spec(self, case, taint, quirk):
         # documented: a read-only view combining the wrapped dicts: lookups go to the first dict
         # holding the key, list reads concatenate, mutators raise TypeError
-        dicts = [SpecMultiMap(a, taint) for a in case["init"]]
+        dicts = [SpecMultiMap(a, taint, quirk=quirk) for a in case["init"]]
 
         class View:
             def __len__(s):
@@ -1580,16 +1684,16 @@ class CombinedStream(OpsStream):
             parts = [
                 f"len={len(c)}",
                 "keys=[" + ",".join(sorted(o_s(k) for k in c.keys())) + "]",
-                "values=" + o_strs(c.values()),
-                "items=" + o_pairs(c.items()),
+                "values=" + o_try(lambda: c.values(), o_strs),
+                "items=" + o_try(lambda: c.items(), o_pairs),
                 "itemsm=" + o_pairs(c.items(multi=True)),
                 "lists=" + o_klist(c.lists()),
                 "listvalues=" + o_list(o_strs, c.listvalues()),
-                "todict=" + o_pairs(list(c.to_dict().items())),
+                "todict=" + o_try(lambda: list(c.to_dict().items()), o_pairs),
                 "todictl=" + o_klist(list(c.to_dict(flat=False).items())),
             ]
             for k in self.probes:
-                parts.append("k" + o_s(k) + "=" + o_try(lambda: c[k], o_s) + "/" + o_opt(o_s, c.get(k)) + "/" + o_opt(str, c.get(k, type=INT)) + "/" + o_strs(c.getlist(k)) + "/" + o_ints(c.getlist(k, type=INT)) + "/" + o_bool(k in c))
+                parts.append("k" + o_s(k) + "=" + o_try(lambda: c[k], o_s) + "/" + o_try(lambda: c.get(k), lambda v: o_opt(o_s, v)) + "/" + o_try(lambda: c.get(k, type=INT), lambda v: o_opt(str, v)) + "/" + o_strs(c.getlist(k)) + "/" + o_ints(c.getlist(k, type=INT)) + "/" + o_bool(k in c))
             return "|".join(parts)
 
         return run_history(view, case["ops"], apply, md_ret, vdump, case.get("all", 0))
@@ -1779,6 +1883,107 @@ class EnvironStream(OpsStream):
         return run_history(View(), case["ops"], apply, lambda r: "~", lambda x: self.dump_real(x, self.probes), case.get("all", 0))
 
 
+class TypeConvStream(OpsStream):
+    """TypeConversionDict / ImmutableTypeConversionDict: dict mutators and `get(key, default, type)`
+    vs Model.Containers.PyDict / TCD / Imm.dictStep (blocked names from the generated table)."""
+
+    name = "ops-typeconv"
+    probes = ["a", "b", "zz"]
+    inits = [[], [["a", "1"], ["b", "x"]], [["b", "-7"], ["a", "+3"], ["c", ""]]]
+    FULL = (
+        [["setitem", k, v] for k in ("a", "b") for v in ("5", "x")]
+        + [["delitem", k] for k in ("a", "zz")]
+        + [["clear"], ["popitem"], ["update", [["a", "9"], ["q", "1"]]], ["update", []]]
+        + [["setdefault", k, "12"] for k in ("a", "zz")]
+        + [["pop", "a", None], ["pop", "zz", "d"], ["pop", "zz", None]]
+    )
+    CORE = FULL[:6] + FULL[8:12]
+    SMALL = FULL[:4] + [["popitem"], ["pop", "a", None]]
+    TINY = FULL[:3] + [["popitem"]]
+    quick_random = 150
+    thorough_random = 3000
+
+    def cases(self, rng, tier):
+        for cls in ("TypeConversionDict", "ImmutableTypeConversionDict"):
+            for c in super().cases(rng, tier):
+                c["cls"] = cls
+                yield c
+
+    @staticmethod
+    def apply(d, op):
+        n = op[0]
+        if n == "setitem":
+            d[op[1]] = op[2]
+            return None
+        if n == "delitem":
+            del d[op[1]]
+            return None
+        if n == "clear":
+            return d.clear()
+        if n == "popitem":
+            return d.popitem()[1]
+        if n == "update":
+            return d.update([(k, v) for k, v in op[1]])
+        if n == "setdefault":
+            return d.setdefault(op[1], op[2])
+        if n == "pop":
+            return d.pop(op[1]) if op[2] is None else d.pop(op[1], op[2])
+        raise AssertionError(op)
+
+    def dump(self, d):
+        parts = [f"len={len(d)}", "items=" + o_pairs(list(d.items()))]
+        for k in self.probes:
+            parts.append("k" + o_s(k) + "=" + o_opt(o_s, d.get(k)) + "/" + o_opt(str, d.get(k, type=INT)) + "/" + o_opt(str, d.get(k, -1, type=INT)) + "/" + o_bool(k in d))
+        return "|".join(parts)
+
+    def real(self, case):
+        import werkzeug.datastructures as ds
+
+        d = getattr(ds, case["cls"])([(k, v) for k, v in case["init"]])
+        return run_history(d, case["ops"], self.apply, lambda r: o_opt(o_s, r), self.dump, case.get("all", 0))
+
+    def model_line(self, case):
+        def line(op):
+            n = op[0]
+            if n in ("setitem", "setdefault"):
+                return f"{n},{hs(op[1])},{hs(op[2])}"
+            if n == "delitem":
+                return f"delitem,{hs(op[1])}"
+            if n == "update":
+                return "update," + e_pairs(op[1])
+            if n == "pop":
+                return f"pop,{hs(op[1])},{e_opt(op[2])}"
+            return n
+
+        return "\t".join(["tcd", "I" if case["cls"].startswith("Immutable") else "T", str(case.get("all", 0)), e_atoms(self.probes), e_pairs(case["init"])] + [line(o) for o in case["ops"]])
+
+    def spec(self, case, taint):
+        # documented: a regular dict whose get() can convert; the immutable variant refuses mutators
+        class Ref(dict):
+            def get(s, k, default=None, type=None):
+                if k not in s:
+                    return default
+                if type is None:
+                    return s[k]
+                try:
+                    return type(s[k])
+                except (ValueError, TypeError):
+                    return default
+
+        d = Ref([(k, v) for k, v in case["init"]])
+        imm = case["cls"].startswith("Immutable")
+
+        def apply(o, op):
+            if imm:
+                raise SpecErr("TypeError")
+            return self.apply(o, op)
+
+        return run_history(d, case["ops"], apply, lambda r: o_opt(o_s, r), self.dump, case.get("all", 0))
+
+    def bucket(self, case, real_out):
+        return case["cls"][:3] + " " + super().bucket(case, real_out)
+
+
 class ImmutablePlainStream(Stream):
     """ImmutableDict / ImmutableTypeConversionDict / ImmutableList: every mutator of the mutable
     base raises TypeError and leaves the object (and its hash) unchanged. Oracle only."""
@@ -1850,6 +2055,109 @@ class ImmutablePlainStream(Stream):
 
     def bucket(self, case, real_out):
         return case["cls"]
+
+    def exhaustive(self, tier):
+        return True
+
+
+class CopyHeapStream(Stream):
+    """An original MultiDict and a copy of it (copy() / copy.copy / deepcopy / pickle / MultiDict(d)),
+    then histories that mutate either object - through the public mutators and through live lists
+    handed out by `setlistdefault` - with all reads of BOTH objects after every step, vs the heap
+    model Model.ContainersHeap (list objects with identity; `copyObj` allocates new ones).
+    Oracle (independent of the model): the copy reads equal to the original, and a step on one object
+    never changes any read of the other."""
+
+    name = "copy-heap"
+    probes = ["a", "b", "zz"]
+    HOWS = ["copy()", "copy.copy", "deepcopy", "pickle", "ctor"]
+    INITS = [["P", [["a", "1"], ["b", "x"], ["a", "2"]]], ["D", [["a", ["1", "x"]], ["b", "2"]]], ["N"]]
+    OPS = [["add", "a", "x"], ["add", "b", "1"], ["setitem", "a", "1"], ["setlist", "a", ["x", "2"]], ["pop", "a", None], ["popitem"], ["update", ["P", [["a", "8"], ["c", "9"]]]], ["setlistdefault", "b", []], ["clear"], ["delitem", "a"]]
+    VIAS = [["via", "a", ["t"]], ["via", "zz", ["u", "w"]]]
+
+    def alphabet(self):
+        out = []
+        for i in (0, 1):
+            out += [["o", i] + op for op in self.OPS]
+            out += [[v[0], i] + v[1:] for v in self.VIAS]
+        return out
+
+    def cases(self, rng, tier):
+        alpha = self.alphabet()
+        for how in self.HOWS:
+            for init in self.INITS:
+                for n in (0, 1, 2):
+                    if n == 2 and tier == "quick" and init is not self.INITS[0]:
+                        continue
+                    for ops in itertools.product(alpha, repeat=n):
+                        yield {"how": how, "init": init, "ops": [list(o) for o in ops]}
+        for _ in range(400 if tier == "quick" else 8000):
+            yield {"how": rng.choice(self.HOWS), "init": rng.choice(self.INITS), "ops": [list(rng.choice(alpha)) for _ in range(rng.randrange(3, 9))]}
+
+    def run(self, case):
+        import copy
+        import pickle
+
+        import werkzeug.datastructures as ds
+
+        d = ds.MultiDict(py_arg(case["init"], ds.MultiDict, ds.Headers))
+        how = case["how"]
+        c = d.copy() if how == "copy()" else copy.copy(d) if how == "copy.copy" else copy.deepcopy(d) if how == "deepcopy" else pickle.loads(pickle.dumps(d)) if how == "pickle" else ds.MultiDict(d)
+        objs = [d, c]
+        problems = []
+        dumps = [md_dump(d, self.probes), md_dump(c, self.probes)]
+        if type(c) is not ds.MultiDict or c is d:
+            problems.append("the copy is not a new MultiDict")
+        if dumps[0] != dumps[1]:
+            problems.append("the copy reads differently from the original")
+        outs = ["#" + dumps[0] + "@" + dumps[1]]
+        for step, op in enumerate(case["ops"], 1):
+            i = op[1]
+            try:
+                if op[0] == "via":
+                    objs[i].setlistdefault(op[2]).extend(op[3])
+                    ret = "~"
+                else:
+                    ret = md_ret(md_apply(objs[i], op[2:], ds))
+            except Exception as e:  # noqa: BLE001
+                ret = "!" + exc_name(e)
+            new = [md_dump(d, self.probes), md_dump(c, self.probes)]
+            if new[1 - i] != dumps[1 - i]:
+                problems.append(f"step {step}: a mutation of the {'original' if i == 0 else 'copy'} changed the reads of the {'copy' if i == 0 else 'original'}")
+            dumps = new
+            outs.append(ret + "#" + dumps[0] + "@" + dumps[1])
+        return ";".join(outs), problems
+
+    def real(self, case):
+        return self.run(case)[0]
+
+    def model_line(self, case):
+        t, b = e_arg(case["init"])
+        ops = []
+        for op in case["ops"]:
+            if op[0] == "via":
+                ops.append(f"via,{op[1]},{hs(op[2])},{e_atoms(op[3])}")
+            else:
+                ops.append(f"o,{op[1]}," + md_line_op(op[2:]))
+        return "\t".join(["heap", e_atoms(self.probes), t, b] + ops)
+
+    def oracle(self, case, real_out):
+        if real_out.startswith("EXC:"):
+            return "copying or reading raised " + real_out[4:]
+        problems = self.run(case)[1]
+        return (f"MultiDict {case['how']}: " + problems[0]) if problems else None
+
+    def nontrivial(self, case, real_out):
+        return len(case["ops"]) > 0
+
+    def bucket(self, case, real_out):
+        n = len(case["ops"])
+        return f"{case['how']} len={n if n < 4 else '4+'}"
+
+    def mutate(self, case, rng):
+        ops = case["ops"]
+        for i in range(len(ops)):
+            yield dict(case, ops=ops[:i] + ops[i + 1 :])
 
     def exhaustive(self, tier):
         return True
@@ -2082,11 +2390,12 @@ class ProbeStream(Stream):
         if real_out == "ok":
             return None
         kind, asp = case["kind"], case["aspect"]
+        # a key only for the exact call site and the exact outcome the finding describes
         pre = ""
         if kind == "HeaderSet" and asp == "copy.copy" and real_out == "mutating the copy changed the original":
-            pre = "F08g: "
-        if kind == "CombinedMultiDict" and asp == "eq" and ("compare equal" in real_out):
-            pre = "F08i: "
+            pre = "F08g: "  # copy.copy(HeaderSet): same content, same type, only the aliasing
+        if kind == "CombinedMultiDict" and asp == "eq" and real_out == "objects with different content compare equal;objects that compare equal hash differently":
+            pre = "F08i: "  # == ignores the wrapped dicts while the hash does not; nothing else is wrong
         return pre + f"{kind} {asp}: {real_out}"
 
     def finding_key(self, case, what):
@@ -2101,14 +2410,16 @@ CHECK = Check(
     prop="C08",
     gen=["Containers", "PyFns_Headers", "PyFns_HeaderSet"],
     modules=["WzVerif.Props.C08", "WzVerif.Props.C08T"],
-    streams=[MultiDictStream(), HeadersStream(), HeaderSetStream(), CombinedStream(), ImmutableStream(), EnvironStream(), ImmutablePlainStream(), ProbeStream(), PreludeKernels()],
+    streams=[MultiDictStream(), HeadersStream(), HeaderSetStream(), CombinedStream(), ImmutableStream(), EnvironStream(), TypeConvStream(), CopyHeapStream(), ImmutablePlainStream(), ProbeStream(), PreludeKernels()],
     assumptions=[
         "Headers.add / set / _del_key / remove (called without keyword arguments, str values), _str_header_value and HeaderSet.update / add / remove / discard / __setitem__ are regenerated from the source by tools/py2lean.py (Gen/PyFns_Headers.lean, Gen/PyFns_HeaderSet.lean) on every run and proved equal to the hand model for all inputs (Props/C08T): the object's attributes are threaded through as explicit state, on_update is modelled as a flag, an iterator as the list of items not yet consumed; list / set mutation primitives are modelled in Util/PyPrelude.lean and validated by stream prelude-kernels",
         "CPython dict (insertion order, re-insertion keeps position, popitem takes the last entry), list indexing/simple slices and str.lower/upper/title on ASCII text are modelled primitives (Model.Containers.PyDict, Model.Headers.pyIdx/sliceBounds), validated by the ops-* streams, not verified",
         "type conversion callables (get/getlist type=) are a parameter of the model; the streams use int on an optional sign + ASCII digits",
         "extended slices (step != 1), non-text keys and the deprecated OrderedMultiDict classes are outside the model",
-        "copy / deepcopy / pickle / eq / hash are runtime behaviour: exercised by stream probes with the property oracle only (no Lean counterpart beyond copy = identity on the functional state)",
-        "known findings F08b, F08c (HeaderSet item assignment / constructor create case-duplicates), F08d (MultiDict key with zero values): negation witnesses proved, theorems carry the excluding hypotheses; F08g/F08i (copy.copy(HeaderSet) aliasing, CombinedMultiDict ==) are runtime behaviour checked by stream probes only",
+        "copies: Model.ContainersHeap gives MultiDict object identity (inner lists = heap objects, mutated in place where the code does, live lists leaked by setlistdefault, copy()/copy.copy/deepcopy/unpickling allocate new list objects); copy_independent is proved there for all histories on either object and alias_copy_not_independent shows a list-sharing copy falsifies it; tied to the code by stream copy-heap (original and copy, all reads of both after every step). Values are atoms (deepcopy of nested mutable values is exercised by stream probes only). Headers / HeaderSet / immutable containers: copy / pickle content as functions of the state (headers_copy_eq, md_pickle_roundtrip), aliasing by stream probes",
+        "equality / hashing: dict equality and the frozenset of items(multi=True) are modelled as functions of the state (imd_eq_hash_consistent); Python's hash() itself is opaque (equal hashed values give equal hashes)",
+        "immutable variants: the model executes a mutator call on an immutable class through Imm.call, which consults the regenerated blocker table (immutable_unchanged_after_refusal is a theorem over table + model; the drivers for ImmutableMultiDict, CombinedMultiDict, EnvironHeaders, ImmutableTypeConversionDict use it)",
+        "known findings F08b, F08c (HeaderSet item assignment / constructor create case-duplicates), F08d (MultiDict key with zero values): negation witnesses proved, theorems carry the excluding hypotheses; a violation is mapped to one of these keys only when the history contains the call the finding names AND the whole observed outcome equals the outcome that finding describes (reference models with exactly that quirk: SpecMultiMap(quirk=True), SpecCISet(quirk=True)); F08g/F08i (copy.copy(HeaderSet) aliasing, CombinedMultiDict ==) are keyed by exact call site and exact outcome text in stream probes",
     ],
     trusted_extra=["CPython dict/list/str semantics for the modelled primitives (validated by the streams, not verified)"],
     quick_budget=60000,
@@ -2116,8 +2427,8 @@ CHECK = Check(
 )
 
 MANIFEST = {
-    "level_text": "Machine-checked Lean 4 refinement theorems: the transcribed MultiDict / Headers / HeaderSet methods refine the documented abstract models (insertion-ordered multimap, case-insensitive pair list, case-insensitive ordered set) for every operation history (Headers: every keyed mutator = a sequence of the atomic actions append / replace-first-drop-rest / drop-all up to the first refused value, hdr_refines); HeaderSet invariant preservation; Headers.set algebra; Immutable* blocker tables regenerated from the live classes and closed by decide. The transcriptions are tied to the code by exhaustive short-history correspondence streams and the property oracle (independent Python reference models) runs on the real code.",
-    "level_note": "Trusted: Lean kernel; extract.py; harness; CPython dict/list/str primitives (modelled, validated). copy/deepcopy/pickle/eq/hash checked by oracle only. Known findings F08b, F08c, F08d, F08g, F08i.",
+    "level_text": "Machine-checked Lean 4 refinement theorems: the transcribed MultiDict / Headers / HeaderSet methods refine the documented abstract models (insertion-ordered multimap, case-insensitive pair list, case-insensitive ordered set) for every operation history (Headers: every keyed mutator = a sequence of the atomic actions append / replace-first-drop-rest / drop-all up to the first refused value, hdr_refines); HeaderSet invariant preservation; Headers.set algebra; Immutable* blocker tables regenerated from the live classes and closed by decide, and every history of mutator calls on an immutable instance is refused leaving it unchanged (theorem over table + model); TypeConversionDict.get(type=), FileMultiDict.add_file, bulk update from every input form, single-key mutator laws; CombinedMultiDict = merge of the wrapped dicts (first-wins get, concatenated lists in first-appearance key order); pickle round trip, copy/deepcopy content, ==/hash consistency of the immutable multidict; copies are independent of the original in a heap model with list-object identity (all histories on either object, incl. appends through leaked live lists). The transcriptions are tied to the code by exhaustive short-history correspondence streams and the property oracle (independent Python reference models) runs on the real code.",
+    "level_note": "Trusted: Lean kernel; extract.py; harness; CPython dict/list/str primitives (modelled, validated). copy independence proved in the heap model (values as atoms) and checked on the code by stream copy-heap; Python hash() opaque. Known findings F08b, F08c, F08d, F08g, F08i.",
     "technique": "Lean 4 proof (refinement by induction over operation histories, decide over regenerated tables) + model/code correspondence",
     "design_ref": "DESIGN.md section 4, C08",
 }
